@@ -218,6 +218,10 @@ func c14CheckBatch(c *Check, ns *nodeSet, w int, cases []xcase, seg string) {
 			c.Sub("engine_parse_checks", 1)
 			if !ok {
 				p := pends[ver][i]
+				if oracleCrashed(p.out) {
+					c.Sub("oracle_crash_skipped", 1)
+					continue
+				}
 				key := "engine:" + p.tgt + ":" + p.variant + ":" + p.in
 				if c14BigintKey.MatchString(p.in) && (ver == "10" || ver == "12") {
 					key = "bigint-literal-property-key-on-node10-12"
